@@ -176,3 +176,12 @@ package handler
 //@   ensures [one-kind] delta(RegisterExternal) + delta(RegisterInternal) <= 1
 //@   ensures [external-iff-launched-by-platform] (delta(RegisterExternal) == 1 ==> delta(ExtByNameFound) == 1) && (delta(RegisterInternal) == 1 ==> delta(ExtByNameFound) == 0)
 //@   loop range parseRegistrationFeatures(request): invariant delta(Render403) == 0 && delta(RegisterExternal) == 0 && delta(RegisterInternal) == 0 && delta(ExtByNameFound) == 0
+
+// C18: credentials are served only to a request bearing a stored token
+//@ event CredentialsLookedUp = call core.(CredentialsService).GetCredentials
+//@ event CredentialsSerialised = call encoding/json.Marshal
+//@ func (*credentialsHandler).ServeHTTP
+//@   requires h != nil && request != nil && typeis(h.credentialsService, *core.credentialsServiceImpl) && ref(h.credentialsService) != 0
+//@   ensures [looked-up-by-the-authorization-header] delta(CredentialsLookedUp) == 1 && lastarg(CredentialsLookedUp, 1) == hdr(request.Header, "Authorization")
+//@   ensures [refused-without-a-stored-token] !has(credsOf(h.credentialsService).credentials, hdr(request.Header, "Authorization")) ==> ghost(httpStatus) == 404 && ghost(httpStatusWriter) == ref(writer) && delta(CredentialsSerialised) == 0
+//@   ensures [served-for-a-stored-token] has(credsOf(h.credentialsService).credentials, hdr(request.Header, "Authorization")) ==> delta(CredentialsSerialised) == 1
